@@ -590,12 +590,16 @@ def counters_full_width(ctx, rule, prefixes, minimum=1):
             bad = []
             for nd in f.body.walk():
                 t = ir.strip_cvref(nd.ty or '') if isinstance(nd.ty, str) else ''
-                if t in NARROW_INTS and nd.op not in ('lit',):
+                # (a) the result of a (library) call computed in a narrow integer type, e.g. std::accumulate with an
+                #     `int` initial value; (b) a count converted to a narrower integer type.  A small loop variable of
+                #     type int (a dimension index) is neither.
+                if t in NARROW_INTS and nd.op in ('call', 'mcall') and not nd.a.get('hep'):
                     txt = ir.show(nd)
-                    if 'digits' in txt or 'max_digits10' in txt:
+                    if 'digits' in txt or 'max_digits10' in txt or 'peek' in txt:
                         continue
-                    if nd.op == 'cond' and all(isinstance(c, ir.N) and c.op == 'lit' for c in nd.k[1:]):
-                        continue        # (c ? 1 : 0)
+                    bad.append(nd)
+                elif nd.op == 'cast' and nd.a.get('kind') == 'IntegralCast' and nd.a.get('narrowing') and \
+                        (nd.a.get('to') or '') in NARROW_INTS and nd.k and nd.k[0].op != 'lit':
                     bad.append(nd)
             if bad:
                 b = min(bad, key=lambda x: (x.line or 0))
